@@ -1,0 +1,61 @@
+//go:build verif
+
+// Contracts for package ast, read by the verification engine in /verif
+// (comment-only; compiled only under the "verif" build tag).
+
+package ast
+
+//@ props C19 C04
+
+// Well-formedness of syntax trees (DESIGN Layer C).  Assumed whenever a
+// reference to a node is obtained; established by the parser.
+
+//@ wf elems
+//@ wf List: len(self) >= 1
+//@ wf AndOrList: self.Pipeline != nil
+//@ wf AndOr: self.Pipeline != nil
+//@ wf Pipeline: self.Cmd != nil
+//@ wf Pipe: self.Cmd != nil
+//@ wf Cmd: self.Expr != nil
+//@ wf Assign: self.Name != nil
+//@ wf Subshell: len(self.List) >= 1
+//@ wf Group: len(self.List) >= 1
+//@ wf ForClause: self.Name != nil && len(self.List) >= 1
+//@ wf IfClause: len(self.Cond) >= 1 && len(self.List) >= 1
+//@ wf ElifClause: len(self.Cond) >= 1 && len(self.List) >= 1
+//@ wf ElseClause: len(self.List) >= 1
+//@ wf WhileClause: len(self.Cond) >= 1 && len(self.List) >= 1
+//@ wf UntilClause: len(self.Cond) >= 1 && len(self.List) >= 1
+//@ wf FuncDef: self.Name != nil && self.Body != nil
+//@ wf ParamExp: self.Name != nil
+//@ wf CmdSubst: len(self.List) >= 1
+//@ wf Quote: self.Tok == "\\" || self.Tok == "'" || self.Tok == "\""
+//@ wf Quote: self.Tok == "\\" ==> len(self.Value) <= 1
+//@ wf Quote: self.Tok == "'" ==> len(self.Value) == 1
+//@ wf Quote: (self.Tok == "\\" || self.Tok == "'") && len(self.Value) >= 1 ==> self.Value[0] is *Lit
+
+// Every function of the package is verified on its own and used through
+// its contract at call sites.
+//@ default opaque
+
+//@ func (Pos).IsZero
+//@   ensures result == (p.line == 0 && p.col == 0)
+
+//@ func (Pos).shift
+//@   ensures result.line == p.line && result.col == p.col + off
+
+//@ func (Pos).Line
+//@   ensures result == p.line
+//@ func (Pos).Col
+//@   ensures result == p.col
+//@ func NewPos
+//@   ensures result.line == line && result.col == col
+//@ func (Pos).Before
+//@   ensures result == (p.line < q.line || p.line == q.line && p.col < q.col)
+//@ func (Pos).After
+//@   ensures result == (p.line > q.line || p.line == q.line && p.col > q.col)
+
+//@ func Node.Pos
+//@   opaque
+//@ func Node.End
+//@   opaque
